@@ -326,7 +326,7 @@ class ImplWorld:
     def op_exec(self, i, clock):
         r, eff = self._exec_once(i, clock)
         r['eff'] = eff
-        if self.oldlog:
+        if self.oldlog and getattr(self, 'record_old', False):
             r['oldchk'] = list(self.oldlog)
         return r
 
@@ -417,6 +417,7 @@ class ImplWorld:
 def run_case(case, charts, clock_mover=False):
     """charts: list of Statechart objects matching case['charts'].  Returns {'obs': [...]}"""
     w = ImplWorld(charts, clock_mover=clock_mover)
+    w.record_old = bool(case.get('record_old'))
     obs = []
     for op in case['ops']:
         obs.append(w.op(op))
